@@ -60,7 +60,7 @@ pub fn draw_case(prop: &str, engine: &str, seed: u64, tier: &str) -> Case {
         // commit counts 0..6, one in four on a legacy-header file; small pages in quick
         let n = r.below(7);
         let legacy = r.chance(1, 4);
-        c.extra = serde_json::json!({"commits": n, "legacy": legacy, "upgrade": legacy && r.chance(1, 2), "thorough": tier == "thorough"});
+        c.extra = serde_json::json!({"commits": n, "legacy": legacy, "upgrade": legacy && r.chance(1, 2), "empty_last": r.chance(1, 4), "thorough": tier == "thorough"});
         c.pagesize = if tier == "thorough" { *r.pick(&[1024, 1024, 2048, 4096]) } else { 1024 };
         c.strict = false;
     }
@@ -75,6 +75,8 @@ pub fn gen_for(prop: &str, case: &Case) -> Gen {
 
 fn tune(prop: &str, cfg: &mut GenCfg, seed: u64) {
     let mut r = Rng::new(mix(seed, 0x7E57));
+    // rare and expensive: one transaction with more than 2^16 entries in one bucket
+    cfg.giant_tx = prop == "C01" && seed % 1024 == 5;
     if matches!(prop, "C01" | "C05" | "C15") {
         // now and then one commit adds more than a whole growth step (8 MiB)
         cfg.huge_value = seed % 16 == 0;
@@ -166,6 +168,9 @@ pub fn engine_cfg(case: &Case, path: &str) -> EngineCfg {
     let mut e = EngineCfg::new(path, case.pagesize);
     case.apply(&mut e);
     e.oracles = oracles(&case.property);
+    if case.property == "C01" && case.seed % 1024 == 5 {
+        e.max_steps = 90_000;
+    }
     match case.property.as_str() {
         "C05" => {
             e.db_check = true;
